@@ -42,6 +42,7 @@ def triggers(cfg):
         t.append(("missing+rewritten:" + d, [("rm", d, "f1"), ("write", d, "sub/f2", 1025, 1)] +
                   ([("rm", d, "big")] if d == "d1" else []), ("-E",), None))
         t.append(("zero-size:" + d, [("write", d, "f1", 0, 1)], ("--force-zero",), None))
+        t.append(("zero-size-in-subdir:" + d, [("write", d, "sub/f2", 0, 1)], ("--force-zero",), None))
     for l in range(cfg.levels):
         t.append(("parity-short:%d" % l, [("truncparity", l)], ("-F",), None))
         t.append(("parity-short-R:%d" % l, [("truncparity", l)], ("-R",), None))
